@@ -169,7 +169,87 @@ def run_case(run, e2, harnesses, case, scratch):
     return v, out
 
 
+def live_syslog_scenario(run, wc):
+    """Real server with an access log file and --log-syslog (the harness plays the syslog daemon on a UDP socket): one record
+    per request in each sink, also for requests served by workers forked after one and two reloads."""
+    import os
+    import signal
+    import socket
+    import time
+    from vlib import e4_live as e4
+    v = []
+    us = socket.socket(socket.AF_INET, socket.SOCK_DGRAM)
+    us.bind(("127.0.0.1", 0))
+    us.settimeout(0.2)
+    port = us.getsockname()[1]
+    srv = e4.Server("c19", worker_class=wc, workers=1, settings={"syslog": True, "syslog_addr": "udp://127.0.0.1:%d" % port,
+                                                                  "graceful_timeout": 3})
+    alog = os.path.join(srv.dir, "access.log")
+    srv.write_conf(accesslog=alog)
+    try:
+        srv.start()
+        if not srv.wait_workers(1, 25) or not srv.wait_listening(5):
+            return v, "server did not boot: %s" % srv.stderr()[-200:]
+        ids = []
+        for gen in range(3):
+            for k in range(2):
+                rid = "live%d%d%08x" % (gen, k, int(time.monotonic() * 1000) & 0xffffffff)
+                r = e4.request(srv.addr, "/pid?id=" + rid, timeout=5)
+                if r["outcome"] != "ok":
+                    return v, "request failed: %s" % r["outcome"]
+                ids.append((gen, rid))
+            if gen < 2:
+                old = set(srv.worker_pids())
+                srv.signal(signal.SIGHUP)
+                t0 = time.monotonic()
+                while time.monotonic() - t0 < 10:
+                    ws = srv.worker_pids()
+                    inited = set(e["wpid"] for e in srv.events() if e["kind"] == "post_worker_init")
+                    if len(ws) == 1 and not (set(ws) & old) and ws[0] in inited:
+                        break
+                    time.sleep(0.05)
+        time.sleep(0.4)
+        grams = []
+        while True:
+            try:
+                grams.append(us.recv(65536).decode("latin-1", "replace"))
+            except socket.timeout:
+                break
+        try:
+            with open(alog, errors="replace") as f:
+                lines = f.read().splitlines()
+        except OSError:
+            lines = []
+        for gen, rid in ids:
+            nfile = sum(1 for ln in lines if rid in ln)
+            nsys = sum(1 for g in grams if rid in g and ".access" in g)
+            run.count("live_record_count_checks")
+            if nfile != 1:
+                v.append(("record-count-file/%d" % min(nfile, 2), "request %s (after %d reloads): %d lines in the access log file" % (rid, gen, nfile)))
+            if nsys != 1:
+                v.append(("record-count-syslog/%d" % min(nsys, 2), "request %s (after %d reloads, %s): %d access records on the syslog socket" % (
+                    rid, gen, wc, nsys)))
+        return v, None
+    finally:
+        srv.cleanup()
+        us.close()
+
+
 def shard(sh):
+    if sh.get("kind") == "live":
+        run = Run(PROP, sh.get("tier", "quick"), sh["seed"], "exploration", RULE)
+        reason = None
+        for attempt in range(3):
+            v, reason = live_syslog_scenario(run, sh["class"])
+            if reason is None or v:
+                break
+        run.case(("live-syslog", sh["class"]))
+        for mech, summary in v:
+            run.violation(mech, summary, {"live": sh["class"]})
+        if reason is not None and not v:
+            run.inconclusive_because("live syslog scenario: " + reason)
+        run.sample({"live": "access log file + syslog sink across two reloads", "class": sh["class"]}, cap=1)
+        return run
     from vlib import e2_worker as e2
     import shutil
     run = Run(PROP, sh.get("tier", "quick"), sh["seed"], "exploration", RULE)
@@ -205,6 +285,9 @@ def main(tier, seed):
                 "hostile/pct-lf-path", "hostile/auth-lf", "hostile/rejected")
     q = tier == "quick"
     shards = [{"n": 1200 if q else 15000, "sub": i, "seed": seed, "tier": tier} for i in range(32 if q else 64)]
+    classes = ["sync", "gthread", "gevent", "eventlet"]
+    shards += [{"kind": "live", "class": c, "seed": seed, "tier": tier} for c in (classes if not q else [classes[seed % 4], classes[(seed + 1) % 4]])]
+    run.require("live_record_count_checks")
     run.assumptions = [
         "records = emit() calls on the 'gunicorn.access' logger, produced by the real Logger.access(); one record must be one '\\n'-terminated line",
         "B is compared with the de-chunked body bytes the client end received, only for responses received completely",
@@ -220,6 +303,11 @@ def replay(path):
     with open(path) as f:
         rec = json.load(f)
     run = Run(PROP, "quick", 0, "exploration", RULE)
+    if "live" in rec["case"]:
+        v, reason = live_syslog_scenario(run, rec["case"]["live"])
+        for mech, s in v:
+            print("VIOLATION property=%s replay=%s\n  %s %s" % (PROP, path, mech, s))
+        return 1 if v else 0
     scratch = common.scratch_dir("c19")
     hs = {}
     try:
